@@ -50,6 +50,7 @@ type sim struct {
 	inputs [][]byte
 	descs  []string
 	live   []*handle
+	stale  []*handle // nested handles whose top-level result has been closed (only Close may still be called on them)
 	nextID int
 	kept   []retained
 	judged int
@@ -111,9 +112,37 @@ func (s *sim) dropTop(top int) {
 	for _, h := range s.live {
 		if h.top != top {
 			out = append(out, h)
+		} else if h.id != top && len(s.stale) < 8 {
+			s.stale = append(s.stale, h)
 		}
 	}
 	s.live = out
+}
+
+// opCloseStale calls Close on a nested handle after its top-level result was closed. Close on a nested result is
+// documented to have no effect, whenever it is called: it must not hand the object (which is back in its pool,
+// or already serving a later decode) to the pool again.
+func (s *sim) opCloseStale(t *rapid.T) {
+	if len(s.stale) == 0 {
+		return
+	}
+	i := rapid.IntRange(0, len(s.stale)-1).Draw(t, "stale")
+	h := s.stale[i]
+	s.stale = append(s.stale[:i], s.stale[i+1:]...)
+	puts0 := s.model.S.Puts
+	s.w.Step("#%d%v.Close (nested handle of a result that is already closed)", h.id, h.path)
+	var err error
+	if s.call("Close(stale nested)", func() { err = h.res.Close() }) {
+		return
+	}
+	s.w.Probe("close_on_stale_nested_handle")
+	s.judged++
+	if err != nil {
+		s.w.Violate("close-returned-error", err.Error())
+	}
+	if n := s.model.S.Puts - puts0; n > 0 {
+		s.w.Violate("close-on-nested-handle-put-object-into-pool", fmt.Sprintf("#%d%v.Close after its top-level result was closed handed %d object(s) to a pool; Close on a nested result is documented to have no effect", h.id, h.path, n))
+	}
 }
 
 func (s *sim) opDecode(t *rapid.T) {
@@ -510,17 +539,18 @@ func runC14(t *rapid.T, w *rep.Worker) {
 	}
 	fc0 := lazysim.FilterCalls.Load()
 	actions := map[string]func(*rapid.T){
-		"":          s.check,
-		"decode":    s.opDecode,
-		"decode2":   s.opDecode,
-		"access":    s.opAccess,
-		"access2":   s.opAccess,
-		"nested":    s.opNested,
-		"range":     s.opRange,
-		"fielddata": s.opFieldDataPath,
-		"close":     s.opClose,
-		"close2":    s.opClose,
-		"gc_clear":  s.opGC,
+		"":           s.check,
+		"decode":     s.opDecode,
+		"decode2":    s.opDecode,
+		"access":     s.opAccess,
+		"access2":    s.opAccess,
+		"nested":     s.opNested,
+		"range":      s.opRange,
+		"fielddata":  s.opFieldDataPath,
+		"close":      s.opClose,
+		"close2":     s.opClose,
+		"closestale": s.opCloseStale,
+		"gc_clear":   s.opGC,
 	}
 	// swarm: each run disables a drawn subset of the optional operation kinds
 	for _, k := range []string{"range", "fielddata", "gc_clear", "nested", "access2", "decode2", "close2"} {
